@@ -175,7 +175,7 @@ fn runs(text: &[u8]) -> Vec<Seq> {
     out
 }
 
-fn check(c: &Case) -> CheckResult {
+pub fn check(c: &Case) -> CheckResult {
     let b = &c.bytes;
     check_lenient(b)?;
     // str-based constructors on ASCII text
@@ -273,6 +273,7 @@ fn check(c: &Case) -> CheckResult {
         .label(b.iter().any(|x| *x >= 0x80), "has_high_bytes"))
 }
 
+#[cfg(not(fuzzing))]
 pub fn jobs(_env: &Env) -> Vec<Box<dyn Job>> {
     let mut out: Vec<Box<dyn Job>> = vec![lane_job(0), lane_job(1), lane_job(2)];
     for i in 0..12 {
